@@ -316,7 +316,7 @@ def pool_calls(facts):
     for b in sorted(facts.bodies.values(), key=lambda b: b.key):
         for bb, t in b.normal_calls():
             c = Callee(t["func"])
-            if c.crate in ("rayon", "rayon_core") or (c.trait or "").startswith("rayon::") or "rayon::" in (c.self_arg_s or ""):
+            if c.crate in ("rayon", "rayon_core") or (c.trait or "").startswith("rayon::"):
                 out.append((b, bb, c))
     return out
 
